@@ -242,6 +242,24 @@ func runC10(c *core.Ctx) {
 			continue
 		}
 		base := core.Run(e, "{% if v %}A{% else %}B{% endif %}", map[string]any{"v": gen.PlainDataUniverse()[ui].Go})
+		// what the bare condition must select: only nil and false are falsy - a nil pointer is nil, a Drop is its value
+		wantBare := "A"
+		switch u.Name {
+		case "nil", "false", "nilstructptr", "dropnil":
+			wantBare = "B"
+		}
+		for _, place := range []string{"v", "h.v", "l[0]", "l.last", "d.v"} {
+			uu := gen.PlainDataUniverse()
+			val := uu[ui].Go
+			rb := core.Run(e, "{% if "+place+" %}A{% else %}B{% endif %}|{% unless "+place+" %}B{% else %}A{% endunless %}|{% if fa %}{% elsif "+place+" and tr %}A{% else %}B{% endif %}",
+				map[string]any{"v": val, "h": map[string]any{"v": val}, "l": []any{val}, "d": gen.DropV{X: map[string]any{"v": val}}, "tr": true, "fa": false})
+			c.Eval(1)
+			c.Obs("truthiness_universe_cases", 1)
+			if !rb.OK() || rb.Out != wantBare+"|"+wantBare+"|"+wantBare {
+				c.Violate("truthiness-universe|"+kindOf(u)+"|"+place, "every value except nil and false is truthy (a nil pointer is nil, a Drop is its value, empty and nil collections are truthy), wherever the value is reached from",
+					map[string]any{"value": gen.Describe(val), "reached_as": place, "expected_branch": wantBare, "observed": rb.Brief()})
+			}
+		}
 		for _, l := range logic {
 			for _, form := range []string{"{% if " + l + " %}A{% else %}B{% endif %}", "{% unless " + l + " %}B{% else %}A{% endunless %}", "{% if fa %}X{% elsif " + l + " %}A{% else %}B{% endif %}"} {
 				uu := gen.PlainDataUniverse()
